@@ -183,6 +183,32 @@ var fragExtra = []string{
 	"package a\n\nfunc f() {\n\tx := 1 +\n}\n\nfunc g( {\n",
 }
 
+// the same correspondence on what go/parser returns for broken sources (partial trees with Bad
+// nodes and missing children): the malformed stream of C15
+func fragCorrMalformed(c *Ctx) {
+	var cases []string
+	var srcs []string
+	srcs = append(srcs, linkExtra...)
+	srcs = append(srcs, sinkSources...)
+	budget, used := c.Budget(400000), 0
+	for _, src := range srcs {
+		for _, k := range []string{"truncate", "delete", "flip", "insert", "swap"} {
+			bad := c15Corrupt(c, src, k)
+			t, ok := fragCaseTerm(bad)
+			if !ok || used+len(t) > budget {
+				continue
+			}
+			used += len(t)
+			cases = append(cases, t)
+			c.Res.CaseInputs = appendCase(c.Res.CaseInputs, "mismatch_fragment_malformed", bad)
+			c.Res.Traces++
+		}
+	}
+	c.caseSB.WriteString(coqCaseHeader + "From DV Require Import Model.FragSkel Model.Link Model.Fragment Model.FragCases Gen.FragTbl.\nLocal Open Scope Z_scope.\n")
+	c.caseSB.WriteString("Definition fcases_bad : list fcase := [\n" + strings.Join(cases, ";\n") + "].\n")
+	c.caseSB.WriteString("Definition mismatch_fragment_malformed := Eval vm_compute in bad_fcases frag_tbl ast_stmt_kinds ast_decl_kinds fcases_bad.\nPrint mismatch_fragment_malformed.\nLocal Close Scope Z_scope.\n")
+}
+
 func fragCorr(c *Ctx) {
 	var cases []string
 	srcs := append([]string{}, fragExtra...)
@@ -309,4 +335,5 @@ func init() {
 	corrs["DEC"] = decCorr
 	corrs["C11"] = decCorr
 	corrs["PIPE"] = pipeCorr
+	corrs["FRAGBAD"] = fragCorrMalformed
 }
